@@ -80,6 +80,9 @@ pub struct TypeInfo {
     pub ambient: Vec<(String, String, Ty)>,
     /// the extra binders every function over this type takes: (name, coq type)
     pub ambient_binders: Vec<(String, String)>,
+    /// an iterator struct: (gen name of its `next`, item type name, fuel term with $0 = the value).  Consuming it
+    /// (`for x in it`, `it.map(f).sum()`) is `tr_drain next fuel it`: calling `next` until it returns `None`
+    pub iter: Option<(String, String, String)>,
     pub kind: TypeKind,
 }
 
@@ -346,12 +349,45 @@ impl Ctx {
     pub fn generics_of(&self, gs: &syn::Generics, self_ty: Option<&Ty>) -> Generics {
         let mut g = Generics::none();
         let empty = Generics::none();
+        // `I: IntoIterator<Item = X>` / `Iterator<Item = X>`: a list of X
+        let item_of = |path: &syn::Path| -> Option<Ty> {
+            let last = path.segments.last()?;
+            if last.ident != "IntoIterator" && last.ident != "Iterator" {
+                return None;
+            }
+            if let syn::PathArguments::AngleBracketed(ab) = &last.arguments {
+                for a in &ab.args {
+                    if let syn::GenericArgument::AssocType(at) = a {
+                        if at.ident == "Item" {
+                            return Some(Ty::List(Box::new(self.ty_of(&at.ty, self_ty, None, &empty))));
+                        }
+                    }
+                }
+            }
+            None
+        };
         for p in &gs.params {
             if let syn::GenericParam::Type(tp) = p {
                 for b in &tp.bounds {
                     if let syn::TypeParamBound::Trait(tb) = b {
                         if let Some(x) = self.into_bound(&tb.path, self_ty, None, &empty) {
                             g.into.insert(tp.ident.to_string(), x);
+                        } else if let Some(x) = item_of(&tb.path) {
+                            g.into.insert(tp.ident.to_string(), x);
+                        }
+                    }
+                }
+            }
+        }
+        if let Some(wc) = &gs.where_clause {
+            for pr in &wc.predicates {
+                if let syn::WherePredicate::Type(pt) = pr {
+                    let name = norm_tokens(&pt.bounded_ty);
+                    for b in &pt.bounds {
+                        if let syn::TypeParamBound::Trait(tb) = b {
+                            if let Some(x) = item_of(&tb.path) {
+                                g.into.insert(name.clone(), x);
+                            }
                         }
                     }
                 }
@@ -510,6 +546,7 @@ pub fn load(repo: &str, spec: &Value) -> Result<Ctx, String> {
                     .and_then(|x| x.as_array())
                     .map(|a| a.iter().map(|p| (p[0].as_str().unwrap_or("").to_string(), p[1].as_str().unwrap_or("").to_string())).collect())
                     .unwrap_or_default(),
+                iter: t.get("iter").and_then(|x| x.as_array()).map(|a| (a[0].as_str().unwrap_or("").to_string(), a[1].as_str().unwrap_or("").to_string(), a[2].as_str().unwrap_or("").to_string())),
                 kind: TypeKind::Transparent(Ty::Unknown),
             },
         );
@@ -730,7 +767,11 @@ pub fn load(repo: &str, spec: &Value) -> Result<Ctx, String> {
                         TypeKind::Transparent(inner) if *inner != Ty::Unknown => inner.clone(),
                         _ => Ty::Named(n.to_string()),
                     },
-                    None => Ty::Other(n.to_string()),
+                    None => match syn::parse_str::<syn::Type>(full) {
+                        // `&'a [PathEl]`
+                        Ok(t @ syn::Type::Reference(_)) => ctx.ty_of(&t, None, None, &Generics::none()),
+                        _ => Ty::Other(n.to_string()),
+                    },
                 }
             }
         });
